@@ -296,3 +296,336 @@ Proof.
   - rewrite firstn_length, repeat_length. lia.
   - reflexivity.
 Qed.
+
+(* ---------------------------------------------------------------------------------------- *)
+(* the core operations on a well-formed dynamic buffer: result again well-formed, contents   *)
+(* and return value as the plain-sequence specification says                                 *)
+
+Lemma R_raw b s : R b s -> exists T, b = raw s T.
+Proof. intros [(-> & ->) | (rest & ->)]; [now exists [] | now exists (0%N :: rest)]. Qed.
+
+Lemma insert_data_R b s pos data : R b s ->
+  R (fst (insert_data b pos data)) (fst (ins s pos data)) /\
+  RBool (snd (insert_data b pos data)) = snd (ins s pos data).
+Proof.
+  intros HR. unfold ins. destruct data as [|d0 dr] eqn:Ed.
+  { unfold insert_data. cbn [length Nat.eqb]. rewrite orb_true_r. cbn. auto. }
+  rewrite <- Ed. assert (Hd : data <> []) by (rewrite Ed; discriminate).
+  destruct (R_contents _ _ HR) as (_ & Hst & Hlen).
+  destruct (N.of_nat (length s) <? pos)%N eqn:E.
+  { apply N.ltb_lt in E. rewrite insert_data_out_of_range by (rewrite Hlen; exact E). cbn. auto. }
+  apply N.ltb_ge in E. destruct (R_raw _ _ HR) as (T & ->).
+  destruct (insert_data_raw s T (N.to_nat pos) data Hd) as (rest' & H); [lia|].
+  rewrite N2Nat.id in H. rewrite H. cbn [fst snd]. split; [right; now exists rest' | reflexivity].
+Qed.
+
+Definition del (s : list N) (pos n : N) : list N * ret :=
+  if (N.of_nat (length s) <=? pos)%N || (n =? 0)%N then (s, RBool false)
+  else (delete_spec s (N.to_nat pos) (N.to_nat n), RBool true).
+
+Lemma delete_R b s pos n : R b s ->
+  ((N.of_nat (length s) <= pos)%N \/ n = 0%N \/ (pos + n <= N.of_nat (length s))%N) ->
+  R (fst (delete b pos n)) (fst (del s pos n)) /\ RBool (snd (delete b pos n)) = snd (del s pos n).
+Proof.
+  intros HR Hc. unfold del. destruct (R_contents _ _ HR) as (_ & Hst & Hlen).
+  destruct ((N.of_nat (length s) <=? pos)%N || (n =? 0)%N) eqn:E.
+  { unfold delete. rewrite Hst, Hlen, E. cbn. auto. }
+  apply orb_false_elim in E. destruct E as (E1 & E2). apply N.leb_gt in E1. apply N.eqb_neq in E2.
+  destruct HR as [(-> & ->) | (rest & ->)]; [cbn in E1; lia|].
+  destruct (delete_dyn s rest (N.to_nat pos) (N.to_nat n)) as (rest' & H); try lia.
+  rewrite !N2Nat.id in H. rewrite H. cbn [fst snd]. split; [right; now exists rest' | reflexivity].
+Qed.
+
+Definition setc (s : list N) (pos ch : N) : list N * ret :=
+  if (N.of_nat (length s) <=? pos)%N then (s, RBool false) else (set_spec s (N.to_nat pos) ch, RBool true).
+
+Lemma set_char_R b s pos ch : R b s ->
+  R (fst (set_char b pos ch)) (fst (setc s pos ch)) /\ RBool (snd (set_char b pos ch)) = snd (setc s pos ch).
+Proof.
+  intros HR. unfold setc. destruct (R_contents _ _ HR) as (_ & Hst & Hlen).
+  destruct (N.of_nat (length s) <=? pos)%N eqn:E.
+  { apply N.leb_le in E. rewrite set_char_out_of_range by (rewrite Hlen; exact E). cbn. auto. }
+  apply N.leb_gt in E. destruct HR as [(-> & ->) | (rest & ->)]; [cbn in E; lia|].
+  pose proof (set_char_dyn s rest (N.to_nat pos) ch) as H. rewrite N2Nat.id in H. rewrite H by lia.
+  cbn [fst snd]. split; [right; now exists rest | reflexivity].
+Qed.
+
+Lemma insert_spec_end s data : insert_spec s (length s) data = s ++ data.
+Proof. unfold insert_spec. now rewrite firstn_all, skipn_all, app_nil_r. Qed.
+
+Lemma append_data_R b s data : R b s ->
+  R (fst (append_data b data)) (s ++ data) /\ snd (append_data b data) = true.
+Proof.
+  intros HR. destruct (R_contents _ _ HR) as (_ & Hst & Hlen). unfold append_data. rewrite Hst.
+  destruct data as [|d0 dr] eqn:Ed; [rewrite app_nil_r; auto|]. rewrite <- Ed.
+  destruct (insert_data_R b s (N.of_nat (blen b)) data HR) as (H1 & H2).
+  unfold ins in *. rewrite Ed in H1, H2 at 1. rewrite <- Ed in *.
+  rewrite Hlen in *. rewrite N.ltb_irrefl in *. rewrite Nat2N.id, insert_spec_end in H1.
+  cbn [fst snd] in *. rewrite Ed in H2 at 2. cbn [snd] in H2. split; [exact H1 | congruence].
+Qed.
+
+Lemma create_R data block : (N.of_nat (length data) + 1 + block < 4294967296)%N -> R (create data block) data.
+Proof.
+  intros H. destruct data as [|d0 dr] eqn:E; [left; auto|]. rewrite <- E in *.
+  destruct (create_dyn data block) as (rest & ->); [rewrite E; discriminate | exact H |]. right. now exists rest.
+Qed.
+
+(* ---------------------------------------------------------------------------------------- *)
+(* read-only operations (static buffers included): they see exactly the contents             *)
+
+Definition Wf (b : buf) : Prop := blen b <= length (cells b).
+
+Lemma Inv_Wf b : Inv b -> Wf b.
+Proof.
+  unfold Inv, Wf. intros (_ & H). destruct (bstatic b); [exact H|].
+  destruct H as [(-> & ->) | (H & _)]; cbn; lia.
+Qed.
+
+Lemma contents_length b : Wf b -> length (contents b) = blen b.
+Proof. unfold Wf, contents. intros H. rewrite firstn_length. lia. Qed.
+
+Lemma nth_error_firstn {A} n (l : list A) p : p < n -> nth_error (firstn n l) p = nth_error l p.
+Proof.
+  revert l p. induction n; intros l p H; [lia|]. destruct l; [now destruct p|].
+  destruct p; cbn; [reflexivity | apply IHn; lia].
+Qed.
+
+Lemma get_char_spec b pos : Wf b ->
+  get_char b pos = if (N.of_nat (length (contents b)) <=? pos)%N then None else nth_error (contents b) (N.to_nat pos).
+Proof.
+  intros H. unfold get_char. rewrite contents_length by exact H.
+  destruct (N.of_nat (blen b) <=? pos)%N eqn:E; [reflexivity|]. apply N.leb_gt in E.
+  unfold contents. rewrite nth_error_firstn by lia. symmetry. apply nth_error_nth'. unfold Wf in H. lia.
+Qed.
+
+Lemma memcmp_lex a b :
+  lex_compare a b =
+  match memcmp (firstn (Nat.min (length a) (length b)) a) (firstn (Nat.min (length a) (length b)) b) with
+  | Eq => if length a <? length b then Lt else if length b <? length a then Gt else Eq
+  | c => c
+  end.
+Proof.
+  revert b. induction a as [|x a IH]; intros [|y b]; cbn [length Nat.min firstn memcmp lex_compare]; auto.
+  destruct (x ?= y)%N; auto. rewrite IH.
+  change (S (length a) <? S (length b)) with (length a <? length b).
+  change (S (length b) <? S (length a)) with (length b <? length a). reflexivity.
+Qed.
+
+Lemma firstn_contents b n : n <= blen b -> firstn n (cells b) = firstn n (contents b).
+Proof. intros H. unfold contents. rewrite firstn_firstn. f_equal. lia. Qed.
+
+Lemma compare_data_spec b d2 l2 : Wf b -> l2 <= length d2 ->
+  compare_data b d2 l2 = lex_compare (contents b) (firstn l2 d2).
+Proof.
+  intros Hw Hl. unfold compare_data. rewrite memcmp_lex, contents_length by exact Hw.
+  rewrite firstn_length. replace (Nat.min l2 (length d2)) with l2 by lia.
+  rewrite firstn_firstn. replace (Nat.min (Nat.min (blen b) l2) l2) with (Nat.min (blen b) l2) by lia.
+  rewrite <- firstn_contents by lia.
+  destruct (Nat.min (blen b) l2 =? 0) eqn:E; [|reflexivity].
+  apply Nat.eqb_eq in E. rewrite E. cbn [firstn memcmp].
+  destruct (blen b) as [|n]; destruct l2 as [|m]; cbn in *; try reflexivity; lia.
+Qed.
+
+Lemma find_char_index ch l idx :
+  find_char ch l idx = option_map (fun k => (idx + N.of_nat k)%N) (index_of ch l).
+Proof.
+  revert idx. induction l as [|x r IH]; intros idx; cbn [find_char index_of option_map]; [reflexivity|].
+  destruct (x =? ch)%N; cbn [option_map]; [f_equal; lia|].
+  rewrite IH. destruct (index_of ch r); cbn [option_map]; [f_equal; lia | reflexivity].
+Qed.
+
+Lemma search_char_spec_ok b ch pos : Wf b -> search_char b ch pos = search_char_spec (contents b) ch pos.
+Proof.
+  intros Hw. unfold search_char, search_char_spec. rewrite contents_length by exact Hw.
+  destruct (N.of_nat (blen b) <=? pos)%N; [reflexivity|].
+  rewrite find_char_index. unfold contents. rewrite skipn_firstn_comm.
+  destruct (index_of _ _); reflexivity.
+Qed.
+
+(* ---------------------------------------------------------------------------------------- *)
+(* one step of any operation sequence                                                        *)
+
+Lemma abs_R b s : R b s -> abs b = (s, false).
+Proof. intros H. destruct (R_contents _ _ H) as (Hc & Hs & _). unfold abs. now rewrite Hc, Hs. Qed.
+
+Lemma mut_dynamic s refused f : mut (s, false) refused f = ((fst (f s), false), snd (f s)).
+Proof. unfold mut. cbn. now destruct (f s). Qed.
+
+Lemma mut_static s refused f : mut (s, true) refused f = ((s, true), refused).
+Proof. reflexivity. Qed.
+
+Lemma create_other src : (N.of_nat (length src) + 22 <? 4294967296)%N = true ->
+  contents (create src 1) = src /\ Wf (create src 1) /\ blen (create src 1) = length src.
+Proof.
+  intros H. apply N.ltb_lt in H. assert (HR : R (create src 1) src) by (apply create_R; lia).
+  destruct (R_contents _ _ HR) as (H1 & _ & H3). split; [exact H1|]. split; [|exact H3].
+  apply Inv_Wf. eapply R_Inv. exact HR.
+Qed.
+
+(* the result triple of one refinement step *)
+Definition refines_step (b : buf) (o : op) : Prop :=
+  abs (fst (step b o)) = fst (spec_step (abs b) o) /\
+  snd (step b o) = snd (spec_step (abs b) o) /\
+  Inv (fst (step b o)).
+
+Lemma refines_R b o b' r s' r' : step b o = (b', r) -> spec_step (abs b) o = ((s', false), r') ->
+  R b' s' -> r = r' -> refines_step b o.
+Proof.
+  intros H1 H2 HR ->. unfold refines_step. rewrite H1, H2. cbn [fst snd].
+  split; [now apply abs_R | split; [reflexivity | eapply R_Inv; exact HR]].
+Qed.
+
+Lemma refines_readonly b o r : Inv b -> step b o = (b, r) -> spec_step (abs b) o = (abs b, r) -> refines_step b o.
+Proof. intros HI H1 H2. unfold refines_step. rewrite H1, H2. cbn. auto. Qed.
+
+(* a mutating operation on a static buffer *)
+Ltac static_case b Hst HI :=
+  apply (refines_readonly _ _ (RBool false) HI);
+  [ pose proof (static_refuses b) as Hsr; match goal with |- step _ ?o = _ => specialize (Hsr o Hst); exact Hsr end
+  | unfold abs; rewrite Hst; reflexivity ].
+
+Lemma refines_set b pos ch : Inv b -> refines_step b (OSetChar pos ch).
+Proof.
+  intros HI. destruct (bstatic b) eqn:Hst; [static_case b Hst HI|].
+  pose proof (Inv_R _ HI Hst) as HR. destruct (set_char_R _ _ pos ch HR) as (H1 & H2).
+  eapply refines_R; [cbn [step]; unfold rb; reflexivity | | exact H1 | exact H2].
+  unfold abs. rewrite Hst. cbn [spec_step]. rewrite mut_dynamic. reflexivity.
+Qed.
+
+Lemma refines_ins_data b pos data o :
+  (forall b, bstatic b = false -> step b o = rb (insert_data b pos data)) ->
+  (forall s, spec_step (s, false) o = mut (s, false) (RBool false) (fun s => ins s pos data)) ->
+  (forall b, bstatic b = true -> step b o = (b, RBool false)) ->
+  (forall s, spec_step (s, true) o = ((s, true), RBool false)) ->
+  Inv b -> refines_step b o.
+Proof.
+  intros Hm Hs Hms Hss HI. destruct (bstatic b) eqn:Hst.
+  { apply (refines_readonly _ _ (RBool false) HI); [now apply Hms | unfold abs; rewrite Hst; apply Hss]. }
+  pose proof (Inv_R _ HI Hst) as HR. destruct (insert_data_R _ _ pos data HR) as (H1 & H2).
+  eapply refines_R; [rewrite Hm by exact Hst; unfold rb; reflexivity | | exact H1 | exact H2].
+  unfold abs. rewrite Hst, Hs, mut_dynamic. reflexivity.
+Qed.
+
+Lemma refines_insert b src pos : Inv b -> op_ok (abs b) (OInsert src pos) = true -> refines_step b (OInsert src pos).
+Proof.
+  intros HI Hok. cbn [op_ok] in Hok. destruct (create_other src Hok) as (Hc & _ & _).
+  apply (refines_ins_data b pos src); auto.
+  - intros b0 H0. cbn [step]. unfold insert. now rewrite H0, Hc.
+  - intros b0 H0. cbn [step]. unfold insert. now rewrite H0.
+Qed.
+
+Lemma refines_insert_cstr b str pos : Inv b -> refines_step b (OInsertCstr str pos).
+Proof.
+  intros HI. apply (refines_ins_data b pos (cstr str)); auto.
+  - intros b0 H0. cbn [step]. unfold insert_cstr. now rewrite H0.
+  - intros b0 H0. cbn [step]. unfold insert_cstr. now rewrite H0.
+Qed.
+
+Lemma refines_app_data b data o :
+  (forall b, bstatic b = false -> step b o = rb (append_data b data)) ->
+  (forall s, spec_step (s, false) o = mut (s, false) (RBool false) (fun s => app_ s data)) ->
+  (forall b, bstatic b = true -> step b o = (b, RBool false)) ->
+  (forall s, spec_step (s, true) o = ((s, true), RBool false)) ->
+  Inv b -> refines_step b o.
+Proof.
+  intros Hm Hs Hms Hss HI. destruct (bstatic b) eqn:Hst.
+  { apply (refines_readonly _ _ (RBool false) HI); [now apply Hms | unfold abs; rewrite Hst; apply Hss]. }
+  pose proof (Inv_R _ HI Hst) as HR. destruct (append_data_R _ _ data HR) as (H1 & H2).
+  eapply refines_R; [rewrite Hm by exact Hst; unfold rb; reflexivity | | exact H1 | now rewrite H2].
+  unfold abs. rewrite Hst, Hs, mut_dynamic. reflexivity.
+Qed.
+
+Ltac app_case := intros b0 H0; cbn [step]; unfold append, append_cstr, append_mb_uint_32, append_data; now rewrite ?H0.
+
+Lemma refines_append b src : Inv b -> op_ok (abs b) (OAppend src) = true -> refines_step b (OAppend src).
+Proof.
+  intros HI Hok. cbn [op_ok] in Hok. destruct (create_other src Hok) as (Hc & _ & _).
+  apply (refines_app_data b src); auto; try app_case.
+  intros b0 H0. cbn [step]. unfold append. now rewrite H0, Hc.
+Qed.
+
+Lemma refines_append_data b data : Inv b -> refines_step b (OAppendData data).
+Proof. intros HI. apply (refines_app_data b data); auto; app_case. Qed.
+
+Lemma refines_append_cstr b str : Inv b -> refines_step b (OAppendCstr str).
+Proof.
+  intros HI. apply (refines_app_data b (cstr str)); auto; app_case.
+Qed.
+
+Lemma refines_append_mb b v : Inv b -> refines_step b (OAppendMb v).
+Proof.
+  intros HI. apply (refines_app_data b (mb_write v)); auto; app_case.
+Qed.
+
+Lemma refines_append_char b ch : Inv b -> refines_step b (OAppendChar ch).
+Proof.
+  intros HI. apply (refines_app_data b [ch]); auto.
+  - intros b0 H0. cbn [step]. unfold append_char, append_data. now rewrite H0.
+Qed.
+
+Lemma refines_delete b pos n : Inv b -> op_ok (abs b) (ODelete pos n) = true -> refines_step b (ODelete pos n).
+Proof.
+  intros HI Hok. destruct (bstatic b) eqn:Hst; [static_case b Hst HI|].
+  pose proof (Inv_R _ HI Hst) as HR.
+  assert (Hc : (N.of_nat (length (contents b)) <= pos)%N \/ n = 0%N \/ (pos + n <= N.of_nat (length (contents b)))%N).
+  { unfold op_ok, abs in Hok. cbn [fst snd] in Hok. rewrite Hst in Hok. cbn [orb] in Hok.
+    apply orb_true_iff in Hok. destruct Hok as [Hok | Hok]; [apply orb_true_iff in Hok; destruct Hok as [Hok | Hok]|].
+    - left. now apply N.leb_le. - right. left. now apply N.eqb_eq. - right. right. now apply N.leb_le. }
+  destruct (delete_R _ _ pos n HR Hc) as (H1 & H2).
+  eapply refines_R; [cbn [step]; unfold rb; reflexivity | | exact H1 | exact H2].
+  unfold abs. rewrite Hst. cbn [spec_step]. rewrite mut_dynamic. reflexivity.
+Qed.
+
+Lemma refines_create b data block : op_ok (abs b) (OCreate data block) = true -> refines_step b (OCreate data block).
+Proof.
+  intros Hok. cbn [op_ok] in Hok. apply N.ltb_lt in Hok.
+  eapply refines_R; [reflexivity | reflexivity | now apply create_R | reflexivity].
+Qed.
+
+Lemma refines_sta_create b data : refines_step b (OStaCreate data).
+Proof.
+  unfold refines_step. cbn [step spec_step fst snd]. unfold abs, sta_create, contents, Inv. cbn.
+  rewrite firstn_all. auto.
+Qed.
+
+Lemma refines_duplicate b : Inv b -> op_ok (abs b) ODuplicate = true -> refines_step b ODuplicate.
+Proof.
+  intros HI Hok. cbn [op_ok abs fst] in Hok. apply N.ltb_lt in Hok.
+  pose proof (contents_length b (Inv_Wf b HI)) as Hl.
+  eapply refines_R; [reflexivity | reflexivity | | reflexivity].
+  unfold duplicate. apply create_R. cbn [abs fst]. lia.
+Qed.
+
+Lemma refines_len b : Inv b -> refines_step b OLen.
+Proof.
+  intros HI. eapply refines_readonly; [exact HI | reflexivity |]. cbn [spec_step]. unfold len.
+  now rewrite <- (contents_length b (Inv_Wf b HI)).
+Qed.
+
+Lemma refines_get b pos : Inv b -> refines_step b (OGetChar pos).
+Proof.
+  intros HI. eapply refines_readonly; [exact HI | reflexivity |]. cbn [spec_step].
+  now rewrite (get_char_spec b pos (Inv_Wf b HI)).
+Qed.
+
+Lemma refines_onlyws b : Inv b -> refines_step b OOnlyWs.
+Proof. intros HI. eapply refines_readonly; [exact HI | reflexivity | reflexivity]. Qed.
+
+Lemma refines_search_char b ch pos : Inv b -> refines_step b (OSearchChar ch pos).
+Proof.
+  intros HI. eapply refines_readonly; [exact HI | reflexivity |]. cbn [spec_step].
+  now rewrite (search_char_spec_ok b ch pos (Inv_Wf b HI)).
+Qed.
+
+Lemma refines_compare b other : Inv b -> op_ok (abs b) (OCompare other) = true -> refines_step b (OCompare other).
+Proof.
+  intros HI Hok. cbn [op_ok] in Hok. destruct (create_other other Hok) as (Hc & Hw & Hl).
+  eapply refines_readonly; [exact HI | reflexivity |]. cbn [spec_step abs fst]. unfold compare.
+  rewrite compare_data_spec; [|now apply Inv_Wf | exact Hw]. fold (contents (create other 1)). now rewrite Hc.
+Qed.
+
+Lemma refines_compare_cstr b str : Inv b -> refines_step b (OCompareCstr str).
+Proof.
+  intros HI. eapply refines_readonly; [exact HI | reflexivity |]. cbn [spec_step abs fst]. unfold compare_cstr.
+  rewrite compare_data_spec; [|now apply Inv_Wf | lia]. now rewrite firstn_all.
+Qed.
